@@ -259,6 +259,11 @@ def gen_insertions(g, valid_ids, missing_ids, n=None, allow_diff=True, allow_sta
             pos = pos + [r.choice(stale + list(missing_ids))] if (stale or missing_ids) else pos
         if allow_stale and neg and r.random() < 0.2 and stale:
             neg = neg + [r.choice(stale)]
+        if allow_stale and allow_diff and not neg and (stale or missing_ids) \
+                and r.random() < 0.12:
+            # a 'negative' list none of whose ids resolves (category deleted or missing): the
+            # subtotal has no subtrahends and is an ordinary subtotal, not a difference
+            neg = [r.choice(stale + list(missing_ids))]
         if anchors is None:
             achoices = ["top", "bottom", "TOP", "Bottom", None]
             achoices += list(valid_ids) + [str(x) for x in valid_ids]
